@@ -89,6 +89,11 @@ type c01Call struct {
 	// the implementation sets every out parameter to the zero value of its type (empty vectors, maps, strings): with
 	// Prior this is where content of a used out variable could survive (ResetDefault, ReadSliceInt8/Uint8)
 	EmptyOuts bool `json:"empty_outs,omitempty"`
+	// Big > 0: string and byte vector arguments / results are about that many bytes (packets beyond the read buffers)
+	Big     int  `json:"big,omitempty"`
+	NoModel bool `json:"no_model,omitempty"`
+	// DeepPrior > 0: out variables of type Node hold a chain nested that many structs deep (2n-1 levels on the wire)
+	DeepPrior int `json:"deep_prior,omitempty"`
 	// observations, filled in by the child
 	Sig    string   `json:"sig,omitempty"`    // Coq fsig
 	Args   string   `json:"args,omitempty"`   // Coq list val (all arguments as passed; out positions: the caller's prior value)
@@ -103,9 +108,19 @@ type c01Call struct {
 }
 
 // c01Case is a batch of calls on one proxy: one call, or several concurrent callers.
+// c01Burst: G goroutines x N small calls with unique payloads on one proxy (request-id allocation and reply routing
+// under contention); L3 only
+type c01Burst struct {
+	G     int      `json:"g"`
+	N     int      `json:"n"`
+	Ms    float64  `json:"ms,omitempty"`
+	Fails []string `json:"fails,omitempty"`
+}
+
 type c01Case struct {
 	Cfg   c01Cfg    `json:"cfg"`
 	Calls []c01Call `json:"calls"`
+	Burst *c01Burst `json:"burst,omitempty"`
 	Died  string    `json:"died,omitempty"`
 }
 
@@ -133,6 +148,10 @@ func c01RandCall(rng *rand.Rand, fn string) c01Call {
 	c.NOpts = []int{0, 1, 2, 2}[rng.Intn(4)]
 	c.CtxKind = 1 + rng.Intn(3)
 	c.StKind = 1 + rng.Intn(3)
+	// by default the caller's out variables already hold values (of every kind: scalars, strings, vectors, byte vectors,
+	// maps, structs with optional members and fixed arrays), and now and then the implementation empties every out parameter
+	c.Prior = rng.Intn(4) != 0
+	c.EmptyOuts = rng.Intn(4) == 0
 	if rng.Intn(3) > 0 {
 		c.RCtx = rng.Intn(4)
 		c.RSt = rng.Intn(4)
@@ -213,6 +232,15 @@ func c01Gen(tier string, rng *rand.Rand) []c01Case {
 			p.Prior, p.ErrKind, p.EmptyOuts = true, 0, true
 			one(p)
 		}
+		// an out variable in front of an in argument that holds a deeply nested value: the dispatcher has to pass over it;
+		// around the skip depth limit (2n-1 levels against 512: 256 passes, 257 does not)
+		if ci == 0 || tier == "thorough" {
+			for _, n := range []int{1, 100, 255, 256, 257, 258, 300} {
+				d := c01RandCall(rng, "deep")
+				d.ErrKind, d.OneWay, d.Prior, d.DeepPrior = 0, false, true, n
+				one(d)
+			}
+		}
 		// one-way calls
 		for _, fn := range []string{"note", "ping", "fItem", "many"} {
 			for k := 0; k < per; k++ {
@@ -223,6 +251,33 @@ func c01Gen(tier string, rng *rand.Rand) []c01Case {
 				}
 				one(w)
 			}
+		}
+		// packets around and beyond the transports' read buffers (4096-byte client buffer, server buffer), alone and pipelined
+		if ci%4 == 0 || tier == "thorough" {
+			for _, n := range []int{4000, 4070, 4090, 4096, 4100, 8192, 12000, 66000} {
+				b := c01RandCall(rng, []string{"fString", "fBytes", "fUBytes"}[rng.Intn(3)])
+				b.ErrKind, b.OneWay, b.Big, b.EmptyOuts = 0, false, n+rng.Intn(9)-4, false
+				b.NoModel = n > 4200 || ci != 0 // the model evaluation of large payloads is slow: elsewhere monitors only
+				one(b)
+			}
+			m := c01RandCall(rng, "fBytes")
+			m.ErrKind, m.OneWay, m.Big, m.EmptyOuts, m.NoModel = 0, false, 1<<20, false, true
+			one(m)
+			cs := c01Case{Cfg: cfg}
+			for k := 0; k < 24; k++ {
+				b := c01RandCall(rng, []string{"fString", "fBytes", "fUBytes"}[rng.Intn(3)])
+				b.ErrKind, b.OneWay, b.Big, b.EmptyOuts = 0, false, 300+rng.Intn(3000), false
+				if b.NOpts >= 1 && b.CtxKind == 0 {
+					b.CtxKind = 1
+				}
+				b.NoModel = k >= 4 || ci != 0
+				cs.Calls = append(cs.Calls, b)
+			}
+			out = append(out, cs)
+		}
+		// high-contention burst (one configuration in the quick tier, every configuration in the thorough tier)
+		if ci == 0 || tier == "thorough" {
+			out = append(out, c01Case{Cfg: cfg, Burst: &c01Burst{G: 64, N: 300}})
 		}
 		// concurrent callers on one proxy, unique payloads
 		sizes := []int{2, 7, 64}
@@ -380,6 +435,9 @@ func c01Coq(c *c01Case) []string {
 }
 
 func c01Class(c *c01Case) string {
+	if c.Burst != nil {
+		return fmt.Sprintf("%s/burst%dx%d", c.Cfg, c.Burst.G, c.Burst.N)
+	}
 	if len(c.Calls) == 1 {
 		k := c.Calls[0]
 		return fmt.Sprintf("%s/%s/opts%d/err%d/ow%v/prior%v/rctx%d", c.Cfg, k.Fn, k.NOpts, k.ErrKind, k.OneWay, k.Prior, k.RCtx)
@@ -429,6 +487,9 @@ func init() {
 			}
 			classes[c01Class(&cases[i])]++
 			ncalls += len(cases[i].Calls)
+			if cases[i].Burst != nil {
+				ncalls += cases[i].Burst.G * cases[i].Burst.N
+			}
 			if len(cases[i].Calls) > 1 {
 				nconc++
 			}
@@ -451,13 +512,14 @@ func init() {
 		for i := 0; i < len(cases) && i < 3; i++ {
 			res.Samples = append(res.Samples, cases[(i*7919)%len(cases)])
 		}
-		shard := 60
-		for off := 0; off < len(terms); off += shard {
-			end := off + shard
-			if end > len(terms) {
-				end = len(terms)
+		// shards of at most 60 cases and about 150 KB of case text (large payloads evaluate slowly; the driver runs the shards in parallel)
+		for off, nsh := 0, 0; off < len(terms); nsh++ {
+			end, size := off, 0
+			for end < len(terms) && end-off < 60 && (end == off || size+len(terms[end]) <= 150000) {
+				size += len(terms[end])
+				end++
 			}
-			name := filepath.Join(a.Out, fmt.Sprintf("cases_C01_%d.v", off/shard))
+			name := filepath.Join(a.Out, fmt.Sprintf("cases_C01_%d.v", nsh))
 			var sb strings.Builder
 			sb.WriteString("From TarsV Require Import Base.Hex Codec.GenCodec Codec.Corr Gen.Schemas Rpc.Filters Rpc.EndToEnd Rpc.EndToEndCorr.\nFrom Coq Require Import List NArith ZArith.\nImport ListNotations.\nOpen Scope N_scope.\n")
 			sb.WriteString("Definition cases : list c01_case := [\n")
@@ -469,6 +531,7 @@ func init() {
 				fatal("write: %v", err)
 			}
 			res.CaseFiles = append(res.CaseFiles, name)
+			off = end
 		}
 		writeResult(a, res)
 	}
